@@ -253,7 +253,7 @@ def plan(tier):
                 T.append((ix[n], 2, 2, None, "D", 2))
         T.append((ix["interleaved-fasta"], 2, 40, None, "D", 1))  # buffer so small that chunks hold single records
         T.append((ix["interleaved"], 2, 40, None, "D", 1))
-        T.append((ix["linked-revcomp"], 2, 4, None, "D", 2))
+        T.append((ix["linked-revcomp"], 2, 4, None, "D", 1))
         T.append((ix["single"], 2, 3, 1, "D", 1))
         T.append((ix["paired"], 2, 2, 1, "D", 1))
         T.append((ix["single-redirects"], 3, 3, None, "D", 1))
